@@ -55,9 +55,10 @@ Print Assumptions C01_full_where_builder_agrees.
    [frag_e2e] (Spec/Fragment.v): literals, `$`, identifiers, round groups, every prefix and
    suffix operator, every binary operator (arithmetic, bitwise, comparison, equality, `^^`,
    pair, access, `<~`, `~>`), `~~`, space lists and comma lists, `&&` `||`, conditionals
-   `?>` `!>` and `|>` else-chains, and nested expressions `{ body }` whose body is one
-   expression of the fragment.  (Side-effect blocks [ ], separators -- also inside { } --
-   and `^~` are outside: the reference parser of C02 is undefined on them.)
+   `?>` `!>` and `|>` else-chains, nested expressions `{ body }` whose body is one
+   expression of the fragment (as values and as the functions of the apply forms), and
+   re-apply `^~ e`.  (Side-effect blocks [ ] and separators -- also inside { } -- are
+   outside: the reference parser of C02 is undefined on them.)
 
    The transliterated builder (Model/BuilderWL.v) run on what the transliterated parser
    (Model/Parser.v) makes of the printed tokens produces EXACTLY the program of the AST
@@ -107,8 +108,8 @@ Print Assumptions C01_full_fragment_operators.
 (* non-vacuity: `a = (1 + 2) * -- 3 , x . y < 4 && $ ?> { 5 6 } ~~ |> 7` (25 constructors,
    mixed precedences and associativities, a comma list, a space list, a group, an else-chain,
    a nested expression labelled with the jump-table index of its body) satisfies every
-   hypothesis of C01_full_fragment; side-effect blocks, sequences (also inside { }) and `^~`
-   are not in the fragment *)
+   hypothesis of C01_full_fragment; side-effect blocks and sequences (also inside { }) are
+   not in the fragment *)
 Example C01_ex_e2e_member :
   frag_e2e demo_e2e = true /\ printable demo_e2e = true /\ Nat.leb 12 (Ast.size demo_e2e) = true /\
   known_K1 demo_e2e = false /\ known_K2 demo_e2e = false /\ labels_ok demo_e2e = true.
@@ -117,8 +118,22 @@ Example C01_ex_e2e_excludes :
   frag_e2e (ENested 1 (ESeq Semi EValue EValue)) = false /\
   frag_e2e (ESide EValue (ELit (LInt 1))) = false /\
   frag_e2e (ESeq Semi EValue EValue) = false /\
-  frag_e2e (EReapply EValue) = false.
+  frag_e2e (EReapply (ESide EValue (ELit (LInt 1)))) = false.
 Proof. exact frag_e2e_excludes. Qed.
+
+(* functions and calls: `2 ~> { $ + 1 } ~> { $ * 3 }` (two functions applied in turn) and the
+   loop `{ $ < 3 ?> ^~ $ + 1 |> $ } <~ 0` (the body restarts itself until `$` reaches 3)
+   satisfy every hypothesis of C01_full_fragment, and the evaluator answers 9 and 3 *)
+Example C01_ex_e2e_apply_twice :
+  frag_e2e demo_apply2 = true /\ printable demo_apply2 = true /\ known_K1 demo_apply2 = false /\
+  known_K2 demo_apply2 = false /\ labels_ok demo_apply2 = true /\
+  eval_prog sh unit nohost 20 demo_apply2 VUnit tt = ODone (VNum (Int 9)) (tt, []).
+Proof. exact demo_apply2_ok. Qed.
+Example C01_ex_e2e_loop :
+  frag_e2e demo_loop = true /\ printable demo_loop = true /\ known_K1 demo_loop = false /\
+  known_K2 demo_loop = false /\ labels_ok demo_loop = true /\
+  eval_prog sh unit nohost 40 demo_loop VUnit tt = ODone (VNum (Int 3)) (tt, []).
+Proof. exact demo_loop_ok. Qed.
 
 (* Stages 1-4, proved for ALL programs of the core grammar: every construct of
    Spec/Ast.v.  What separates it from the full statement: the labels of the
